@@ -37,6 +37,8 @@ pub enum BEv {
     HostShare(Vec<usize>),
     /// clone_data of a value that is also on a stack (operand i, or the current `$` when None)
     CloneStack(Option<usize>),
+    /// the host registers a symbol name at run time (after the retention point): parse_add_symbol
+    HostSymbol(String),
 }
 
 #[derive(Clone, Debug, Serialize, Deserialize)]
@@ -191,6 +193,9 @@ impl Campaign for C19 {
             if rng.chance(1, 14) {
                 evs.push(BEv::CloneStack(if rng.chance(1, 2) { None } else { Some(rng.below(4)) }));
             }
+            if rng.chance(1, 12) {
+                evs.push(BEv::HostSymbol(format!("hs{}", rng.below(40))));
+            }
             let opt = match cadence {
                 0 => false,
                 1..=5 => true,
@@ -330,6 +335,7 @@ impl Campaign for C19 {
                     BEv::CloneHeld(_) | BEv::CloneStack(_) => " clone_data",
                     BEv::HostAdd(_) => " host_add",
                     BEv::HostShare(_) => " host_share",
+                    BEv::HostSymbol(_) => " host_symbol",
                 });
             }
         }
@@ -518,6 +524,30 @@ pub fn execute(sc: &Sc19) -> Outcome {
                         Err(_) => {
                             out.count("f1_store_full_fired", 1);
                             out.probe("store-full-in-host-add");
+                            break 'run;
+                        }
+                    }
+                }
+                BEv::HostSymbol(name) => {
+                    sh.str("symbol");
+                    match a.parse_add_symbol(&name) {
+                        Ok(addr) => {
+                            let sym = symbol_value(&name);
+                            if !symbols.contains(&sym) {
+                                symbols.push(sym);
+                            }
+                            held.push((addr, Val::Sym(sym)));
+                            out.count("host_symbols_registered", 1);
+                            if a.data_retention_count() > 0 {
+                                out.probe("symbol-registered-after-retention-point");
+                            }
+                            if a.symbol_name(sym).as_deref() != Some(name.as_str()) {
+                                out.violate("C19.harness.symbol-readback", format!("registered {:?}, store reports {:?}", name, a.symbol_name(sym)));
+                                break 'run;
+                            }
+                        }
+                        Err(_) => {
+                            out.count("f1_store_full_fired", 1);
                             break 'run;
                         }
                     }
